@@ -174,33 +174,39 @@ theorem ownEvs_passes (env : Env) (kw : Kw) (v : J) (ch : List Ev) :
   | arr xs => simp [ownEvs, ownOK, arrEvs_passes]
   | obj kvs => simp [ownEvs, ownOK, objEvs_passes]
 
-theorem countOK_le (env : Env) (ss : List S) (v : J) : countOK env ss v ≤ ss.length := by
+theorem selOK_empty (s : S) : selOK "" s = true := by simp [selOK]
+
+theorem countOK_le (env : Env) (ss : List S) (v : J) : countOK env "" ss v ≤ ss.length := by
   induction ss with
   | nil => simp [countOK]
-  | cons s ss ih => rw [countOK]; cases visit env s v <;> simp <;> omega
+  | cons s ss ih => rw [countOK, selOK_empty]; cases visit env s v <;> simp <;> omega
 
 theorem visitAll_eq_count (env : Env) (ss : List S) (v : J) :
-    visitAll env ss v = (countOK env ss v == ss.length) := by
+    visitAll env ss v = (countOK env "" ss v == ss.length) := by
   induction ss with
   | nil => simp [visitAll, countOK]
   | cons s ss ih =>
-    rw [visitAll, countOK, ih]
+    rw [visitAll, countOK, ih, selOK_empty]
     have := countOK_le env ss v
     cases visit env s v
     · simp; omega
     · simp only [Bool.true_and, if_true, List.length_cons]
-      by_cases h : countOK env ss v = ss.length
+      by_cases h : countOK env "" ss v = ss.length
       · simp [h]; omega
-      · have h2 : ¬ (1 + countOK env ss v = ss.length + 1) := by omega
+      · have h2 : ¬ (1 + countOK env "" ss v = ss.length + 1) := by omega
         rw [beq_eq_false_iff_ne.mpr h, beq_eq_false_iff_ne.mpr h2]
 
 theorem visitAny_eq_count (env : Env) (ss : List S) (v : J) :
-    visitAny env ss v = decide (1 ≤ countOK env ss v) := by
+    visitAny env ss v = decide (1 ≤ countOK env "" ss v) := by
   induction ss with
   | nil => simp [visitAny, countOK]
   | cons s ss ih =>
-    rw [visitAny, countOK, ih]
+    rw [visitAny, countOK, ih, selOK_empty]
     cases visit env s v <;> simp
+
+theorem discEvs_passes (kw : Kw) (v : J) : passesL (discEvs kw v) = (discCheck kw v).pass := by
+  unfold discEvs
+  cases discCheck kw v <;> simp [passesL, Ev.passes, DiscRes.pass]
 
 theorem evCombine_passes (env : Env) (kw : Kw) (a b c : List S) (sc : Bool) (v : J)
     (notEvs : List Ev) (oneSubs anySubs allSubs : List (List Ev)) (childEvs : List Ev)
@@ -221,9 +227,9 @@ theorem evCombine_passes (env : Env) (kw : Kw) (a b c : List S) (sc : Bool) (v :
       cases v.isNull <;> simp [passesL, Ev.passes]
     · simp only [hs, Bool.false_eq_true, if_false, passesL_append]
       have e2 : passesL (if c.isEmpty = true then [] else
-          [Ev.comp CompKind.oneOf (here "oneOf" v (oneOfReason oneSubs)) oneSubs]) =
-          (c.isEmpty || passCount oneSubs == 1) := by
-        cases c.isEmpty <;> simp [passesL, Ev.passes, compOK]
+          discEvs kw v ++ [Ev.comp CompKind.oneOf (here "oneOf" v (oneOfReason oneSubs)) oneSubs]) =
+          (c.isEmpty || ((discCheck kw v).pass && passCount oneSubs == 1)) := by
+        cases c.isEmpty <;> simp [passesL, passesL_append, Ev.passes, compOK, discEvs_passes]
       have e3 : passesL (if b.isEmpty = true then [] else
           [Ev.comp CompKind.anyOf (here "anyOf" v [Frag.lit "doesn't match any schema from \"anyOf\""]) anySubs]) =
           (b.isEmpty || rAny) := by
@@ -301,13 +307,15 @@ theorem events_passes_all (env : Env) :
     (∀ s v, passesL (events env s v) = visit env s v) ∧
     (∀ p ad has whole kvs, passesL (propsEvs env p ad has whole kvs) = visitProps env p ad has kvs) ∧
     (∀ s xs i, passesL (itemsEvs env s xs i) = visitItems env s xs) ∧
-    (∀ ss v, passCount (eventsEach env ss v) = countOK env ss v) := by
+    (∀ ss v, passCount (eventsEach env ss v) = countOK env "" ss v) ∧
+    (∀ dr ss v, passCount (eventsSel env dr ss v) = countOK env dr ss v) := by
   refine events.mutual_induct
     (motive1 := fun s v => passesL (events env s v) = visit env s v)
     (motive2 := fun p ad has whole kvs => passesL (propsEvs env p ad has whole kvs) = visitProps env p ad has kvs)
     (motive3 := fun s xs i => passesL (itemsEvs env s xs i) = visitItems env s xs)
-    (motive4 := fun ss v => passCount (eventsEach env ss v) = countOK env ss v)
-    ?node ?pnil ?pcons ?inil ?icons ?enil ?econs
+    (motive4 := fun ss v => passCount (eventsEach env ss v) = countOK env "" ss v)
+    (motive5 := fun dr ss v => passCount (eventsSel env dr ss v) = countOK env dr ss v)
+    ?node ?pnil ?pcons ?inil ?icons ?enil ?econs ?snil ?scons
   case node =>
     intro kw a b c n i p ad v ihn ihc ihb iha ihch
     rw [events.eq_def, visit.eq_def]
@@ -344,7 +352,12 @@ theorem events_passes_all (env : Env) :
   case econs =>
     intro s ss v ih1 ih2
     rw [eventsEach, countOK]
-    simp [passCount, ih1, ih2]
+    simp [passCount, ih1, ih2, selOK]
+  case snil => intro dr v; simp [eventsSel, passCount, countOK]
+  case scons =>
+    intro dr s ss v ih1 ih2
+    rw [eventsSel, countOK]
+    cases hsel : selOK dr s <;> simp [passCount, ih1, ih2, skipped, passesL, Ev.passes]
 
 theorem events_passes (env : Env) (s : S) (v : J) : passesL (events env s v) = visit env s v :=
   (events_passes_all env).1 s v
@@ -570,6 +583,73 @@ theorem ownEvs_located (env : Env) (kw : Kw) (v : J) (ch : List Ev) (hch : locat
       obtain ⟨k, _, rfl⟩ := hc
       exact loc_required _ _ _
 
+theorem loc_keyed (kvs : List (String × J)) (pn : String) (x : J) (e : Err)
+    (hl : lookup pn kvs = some x) (he : e.rpath = [.key pn]) (hv : e.value = some x) : Loc (.obj kvs) e := by
+  left
+  refine ⟨x, ?_, ?_⟩
+  · simp [Err.pointer, he, resolve, resolve1, hl]
+  · intro q hq; rw [hv] at hq; cases hq; rfl
+
+theorem discEvs_located (kw : Kw) (v : J) : locatedL v (discEvs kw v) := by
+  unfold discEvs
+  cases hd : discCheck kw v with
+  | all => simp [locatedL]
+  | sel r => simp [locatedL]
+  | missing => simp [locatedL, Ev.located]; exact loc_noValue _ _ rfl rfl
+  | notString x =>
+    simp only [locatedL, Ev.located, and_true]
+    unfold discCheck at hd
+    split at hd
+    · cases hd
+    · cases v with
+      | obj kvs =>
+        simp only at hd
+        cases hl : lookup kw.discProp kvs with
+        | none => simp [hl] at hd
+        | some y =>
+          cases y with
+          | str t => simp only [hl] at hd; split at hd <;> (try split at hd) <;> cases hd
+          | null => simp [hl] at hd; subst hd; exact loc_keyed kvs _ _ _ hl (by simp [discNotStringErr, mark]) (by simp [discNotStringErr, mark])
+          | bool b => simp [hl] at hd; subst hd; exact loc_keyed kvs _ _ _ hl (by simp [discNotStringErr, mark]) (by simp [discNotStringErr, mark])
+          | num q' => simp [hl] at hd; subst hd; exact loc_keyed kvs _ _ _ hl (by simp [discNotStringErr, mark]) (by simp [discNotStringErr, mark])
+          | arr xs => simp [hl] at hd; subst hd; exact loc_keyed kvs _ _ _ hl (by simp [discNotStringErr, mark]) (by simp [discNotStringErr, mark])
+          | obj o => simp [hl] at hd; subst hd; exact loc_keyed kvs _ _ _ hl (by simp [discNotStringErr, mark]) (by simp [discNotStringErr, mark])
+      | null => simp at hd
+      | bool b => simp at hd
+      | num q => simp at hd
+      | str t => simp at hd
+      | arr xs => simp at hd
+  | unmapped x =>
+    simp only [locatedL, Ev.located, and_true]
+    unfold discCheck at hd
+    split at hd
+    · cases hd
+    · cases v with
+      | obj kvs =>
+        simp only at hd
+        cases hl : lookup kw.discProp kvs with
+        | none => simp [hl] at hd
+        | some y =>
+          cases y with
+          | str t =>
+            simp only [hl] at hd
+            split at hd
+            · cases hd
+            · split at hd
+              · cases hd
+              · cases hd
+                exact loc_keyed kvs _ _ _ hl (by simp [discUnmappedErr, mark]) (by simp [discUnmappedErr, mark])
+          | null => simp [hl] at hd
+          | bool b => simp [hl] at hd
+          | num q' => simp [hl] at hd
+          | arr xs => simp [hl] at hd
+          | obj o => simp [hl] at hd
+      | null => simp at hd
+      | bool b => simp at hd
+      | num q => simp at hd
+      | str t => simp at hd
+      | arr xs => simp at hd
+
 theorem evCombine_located (env : Env) (kw : Kw) (a b c : List S) (sc : Bool) (v : J)
     (notEvs : List Ev) (oneSubs anySubs allSubs : List (List Ev)) (childEvs : List Ev)
     (hNot : locatedL v notEvs) (hch : locatedL v childEvs) :
@@ -582,7 +662,9 @@ theorem evCombine_located (env : Env) (kw : Kw) (a b c : List S) (sc : Bool) (v 
       · simp [locatedL, Ev.located]; exact loc_noValue _ _ rfl rfl
       · simp [locatedL]
     · refine locatedL_append (locatedL_append (locatedL_append (locatedL_append hNot ?_) ?_) ?_) ?_
-      · split <;> simp [locatedL, Ev.located, loc_here]
+      · split
+        · simp [locatedL]
+        · exact locatedL_append (discEvs_located kw v) (by simp [locatedL, Ev.located, loc_here])
       · split <;> simp [locatedL, Ev.located, loc_here]
       · split <;> simp [locatedL, Ev.located, loc_here]
       · split
@@ -684,7 +766,7 @@ theorem events_located_all (env : Env) :
         (∀ kx ∈ r, WFJ kx.2) → locatedL (.obj all) (propsEvs env p ad has whole r)) ∧
     (∀ s xs i, ∀ (all : List J), (∀ j, xs[j]? = all[i + j]?) → (∀ x ∈ xs, WFJ x) →
         locatedL (.arr all) (itemsEvs env s xs i)) ∧
-    (∀ (_ss : List S) (_v : J), True) := by
+    (∀ (_ss : List S) (_v : J), True) ∧ (∀ (_dr : String) (_ss : List S) (_v : J), True) := by
   refine events.mutual_induct
     (motive1 := fun s v => WFJ v → locatedL v (events env s v))
     (motive2 := fun p ad has whole r => ∀ (all : List (String × J)), whole = .obj all → (∀ kx ∈ r, lookup kx.1 all = some kx.2) →
@@ -692,7 +774,8 @@ theorem events_located_all (env : Env) :
     (motive3 := fun s xs i => ∀ (all : List J), (∀ j, xs[j]? = all[i + j]?) → (∀ x ∈ xs, WFJ x) →
         locatedL (.arr all) (itemsEvs env s xs i))
     (motive4 := fun _ _ => True)
-    ?node ?pnil ?pcons ?inil ?icons ?enil ?econs
+    (motive5 := fun _ _ _ => True)
+    ?node ?pnil ?pcons ?inil ?icons ?enil ?econs ?snil ?scons
   case node =>
     intro kw a b c n i p ad v _ _ _ _ ihch hwf
     rw [events.eq_def]
@@ -725,6 +808,8 @@ theorem events_located_all (env : Env) :
     · intro j; have := hall (j + 1); simp at this; rw [this]; congr 1; omega
   case enil => intros; trivial
   case econs => intros; trivial
+  case snil => intros; trivial
+  case scons => intros; trivial
 
 theorem events_located (env : Env) (s : S) (v : J) (h : WFJ v) : locatedL v (events env s v) :=
   (events_located_all env).1 s v h
